@@ -34,6 +34,7 @@ def forgotten(pre, post, ns, sid):
          'nonempty-kept': z3.Implies(z3.And(*nonempty(pre).values()), z3.And(*nonempty(post).values()))}
     d.update(inv_m(post))
     d.update(cb_ok(post))
+    d.update(issued_ok(post))
     return d
 
 
@@ -51,6 +52,7 @@ def base_req(c):
     d = dict(c13.handlers_ok(c.pre, 'server'))
     d.update(inv_m(c.pre))
     d.update(cb_ok(c.pre))
+    d.update(issued_ok(c.pre))
     return d
 
 
@@ -71,7 +73,7 @@ def handle_disconnect_contract(world, target):
         return d
     return Contract(
         target=target, schema=world, self_obj='server', params={'eio_sid': 'V', 'namespace': 'V', 'reason': 'V'},
-        requires=lambda c: dict(base_req(c), **{'ns-not-star': eff_ns(c.a.namespace) != c13.STAR}),
+        requires=lambda c: dict(base_req(c), **{'dom.ns-not-star': eff_ns(c.a.namespace) != c13.STAR}),
         cases=[Case('connected', when=conn, post=gone),
                Case('connected.handler-raises', when=conn, kind='raise', exc='Exception', post=gone),
                Case('not-connected', when=lambda c: z3.Not(conn(c)), update=lambda c: None)],
@@ -93,7 +95,7 @@ def disconnect_contract(world, target):
         return d
     return Contract(
         target=target, schema=world, self_obj='server', params={'sid': 'V', 'namespace': 'V', 'ignore_queue': 'V'},
-        requires=lambda c: dict(base_req(c), **{'ns-not-star': eff_ns(c.a.namespace) != c13.STAR}),
+        requires=lambda c: dict(base_req(c), **{'dom.ns-not-star': eff_ns(c.a.namespace) != c13.STAR}),
         cases=[Case('connected', when=conn, post=gone),
                Case('connected.handler-raises', when=conn, kind='raise', exc='Exception', post=gone),
                Case('not-connected', when=lambda c: z3.Not(conn(c)), update=lambda c: None)],
@@ -221,7 +223,8 @@ def out_seq(pre, post, e, preds):
     for k, pr in enumerate(preds):
         parts.append(pr(lambda f, k=k: o1.c['.' + f][e][n + k]))
     parts.append(z3.ForAll([j], z3.Implies(z3.And(j >= 0, j < n), z3.And(*[o1.c['.' + f][e][j] == o0.c['.' + f][e][j] for f in names]))))
-    parts.append(z3.ForAll([x], z3.Implies(x != e, z3.And(o1.c['.len'][x] == o0.c['.len'][x], *[o1.c['.' + f][x] == o0.c['.' + f][x] for f in names]))))
+    from .server_events import out_same_at
+    parts.append(z3.ForAll([x], z3.Implies(x != e, out_same_at(o0, o1, x))))
     return z3.And(*parts)
 
 
@@ -242,7 +245,7 @@ def handle_connect_contract(world, target):
         nss = c.pre.get('server', 'namespaces').leaf()
         d['namespaces-config'] = z3.Or(smt.kind(nss) == smt.K_LIST, nss == c13.STAR)
         d['transport-known'] = z3.And(c.pre.get(*ENV).c['dom'][c.a.eio_sid], c.a.eio_sid != NONE)
-        d['ns-not-star'] = ns_(c) != c13.STAR
+        d['dom.ns-not-star'] = ns_(c) != c13.STAR
         return d
 
     def pkt(ptype, ns, data_ok):
@@ -276,17 +279,23 @@ def handle_connect_contract(world, target):
     def default_refusal(D):
         return z3.And(smt.kind(D) == smt.K_DICT, smt.vhas(D, A('message')), smt.vget(D, A('message')) == A('Connection rejected by server'))
 
+    def cbs_same(c):
+        s_, k_ = z3.Consts('cs_s cs_k', V)
+        cb0, cb1 = c.pre.get(*CBS), c.post.get(*CBS)
+        return z3.And(z3.ForAll([s_, k_], z3.And(cb_present(c.post, s_, k_) == cb_present(c.pre, s_, k_), cb_val(c.post, s_, k_) == cb_val(c.pre, s_, k_))),
+                      z3.ForAll([s_], cb1.c['dom'][s_] == cb0.c['dom'][s_]), *cb_ok(c.post).values())
+
     def new_session(c, r):
         ns, e = ns_(c), c.a.eio_sid
         d = {'fresh-session-id': z3.And(z3.Not(c.pre.get('g', 'issued').c['.'][r]), r != NONE),
              'registered': member_rel(c.pre, c.post, added=lambda a, ro, s: z3.And(a == ns, s == r, z3.Or(ro == NONE, ro == r))),
-             'transports-kept': vals_kept(c.pre, c.post), 'owns-the-transport': owns(c.post, e, ns, r)}
+             'transports-kept': vals_kept(c.pre, c.post), 'owns-the-transport': owns(c.post, e, ns, r), 'callbacks-untouched': cbs_same(c)}
         d.update(inv_m(c.post))
         d.update(issued_ok(c.post))
         return z3.And(*d.values())
 
     def no_session(c):
-        d = {'no-membership-anywhere': member_rel(c.pre, c.post), 'transports-kept': vals_kept(c.pre, c.post),
+        d = {'no-membership-anywhere': member_rel(c.pre, c.post), 'transports-kept': vals_kept(c.pre, c.post), 'callbacks-untouched': cbs_same(c),
              'pending-unchanged': sv_equiv(c.post.get(*PEND), c.pre.get(*PEND)) if False else z3.BoolVal(True)}
         n, s = z3.Consts('ns_n ns_s', V)
         d['pending-unchanged'] = z3.ForAll([n, s], pending(c.post, n, s) == pending(c.pre, n, s))
@@ -352,3 +361,187 @@ _register1 = register
 def register(reg):
     _register1(reg)
     register2(reg)
+
+
+# ============================================================================ _handle_eio_message (C05, C12)
+from .packet_summary import dec_type, dec_ns, dec_id, dec_data, dec_count
+from .server_events import wellformed_event, event_effect, client_of, out_same_at
+from pyvc.dsl import fget, fv
+
+T = {k: smt.box_int(z3.IntVal(v)) for k, v in dict(CONNECT=0, DISCONNECT=1, EVENT=2, ACK=3, CONNECT_ERROR=4, BINARY_EVENT=5, BINARY_ACK=6).items()}
+
+
+def binp_ok(st):
+    """half-received packets came off the wire: their id is a JSON/msgpack value"""
+    b = st.get(*BINP)
+    x = z3.Const('bo_x', V)
+    return {'buffered-packets-came-off-the-wire': z3.ForAll([x], z3.Implies(b.c['dom'][x], smt.kind(b.c['.id/'][x]) != smt.K_OTHER))}
+
+
+def eio_message_contract(world, target):
+    """Dispatch by decoded packet type and reassembly of binary packets.  Stated for an ARBITRARY frame: the decoded
+    fields are uninterpreted functions of the frame (C12's "for all inputs")."""
+    def buffering(c):
+        return c.pre.get(*BINP).c['dom'][c.a.eio_sid]
+
+    def req(c):
+        d = base_req(c)
+        d.update(issued_ok(c.pre))
+        nss = c.pre.get('server', 'namespaces').leaf()
+        d['namespaces-config'] = z3.Or(smt.kind(nss) == smt.K_LIST, nss == c13.STAR)
+        d['transport-known'] = z3.And(c.pre.get(*ENV).c['dom'][c.a.eio_sid], c.a.eio_sid != NONE)
+        d.update(binp_ok(c.pre))
+        return d
+
+    def binp_frame(c, pre, post, keep_self):
+        """every other transport's half-received packet is untouched"""
+        b0, b1 = pre.get(*BINP), post.get(*BINP)
+        x = z3.Const('bf_x', V)
+        return z3.ForAll([x], z3.Implies(x != c.a.eio_sid, z3.And(b1.c['dom'][x] == b0.c['dom'][x],
+                                                                   z3.Implies(b0.c['dom'][x], sv_equiv(b1.child(('k', x)), b0.child(('k', x)))))))
+
+    def header_stored(c):
+        ep, e = c.a.data, c.a.eio_sid
+        b1 = c.post.get(*BINP)
+        rec = b1.child(('k', e))
+        return {'stored-under-its-own-transport': b1.c['dom'][e],
+                'fields': z3.And(rec.c['packet_type/'] == ty(c), rec.c['namespace/'] == f_ns(c), rec.c['id/'] == f_id(c),
+                                 rec.c['data/'] == f_data(c), rec.c['attachment_count/'] == f_count(c), rec.c['attachments/len'] == 0),
+                'others-untouched': binp_frame(c, c.pre, c.post, False),
+                'nothing-invoked': sv_equiv(c.post.get(*DISP), c.pre.get(*DISP)),
+                'nothing-sent': sv_equiv(c.post.get(*OUT), c.pre.get(*OUT)),
+                'manager-untouched': z3.And(member_rel(c.pre, c.post), vals_kept(c.pre, c.post))}
+
+    # an empty frame is not decoded at all: the constructor's defaults stand (an EVENT without namespace, id or payload)
+    given = lambda c: smt.truthy(c.a.data)
+    ty = lambda c: z3.If(given(c), dec_type(c.a.data), T['EVENT'])
+    f_ns = lambda c: z3.If(given(c), dec_ns(c.a.data), NONE)
+    f_id = lambda c: z3.If(given(c), dec_id(c.a.data), NONE)
+    f_data = lambda c: z3.If(given(c), dec_data(c.a.data), NONE)
+    f_count = lambda c: z3.If(given(c), dec_count(c.a.data), 0)
+    is_bin_hdr = lambda c: z3.And(z3.Not(buffering(c)), z3.Or(ty(c) == T['BINARY_EVENT'], ty(c) == T['BINARY_ACK']))
+    bad_type = lambda c: z3.And(z3.Not(buffering(c)), z3.Not(z3.Or(*[ty(c) == T[k] for k in ('CONNECT', 'DISCONNECT', 'EVENT', 'ACK', 'BINARY_EVENT', 'BINARY_ACK')])))
+
+    def rejected(c):
+        return {'no-handler-runs': sv_equiv(c.post.get(*DISP), c.pre.get(*DISP)), 'nothing-sent': sv_equiv(c.post.get(*OUT), c.pre.get(*OUT)),
+                'manager-untouched': z3.And(member_rel(c.pre, c.post), vals_kept(c.pre, c.post)),
+                'callbacks-untouched': sv_equiv(c.post.get(*CBS), c.pre.get(*CBS)),
+                'buffers-untouched': sv_equiv(c.post.get(*BINP), c.pre.get(*BINP))}
+
+    def ownership(c):
+        """C12: whatever the frame, nothing is sent to, invoked for, or changed for another client"""
+        e = c.a.eio_sid
+        o0, o1 = c.pre.get(*OUT), c.post.get(*OUT)
+        x, a, r, s, k = z3.Consts('ow_x ow_n ow_r ow_s ow_k', V)
+        names = ('ptype', 'ns', 'id', 'data')
+        mine = lambda a_, s_: owns(c.pre, e, a_, s_)
+        return {
+            'nothing-sent-to-other-transports': z3.ForAll([x], z3.Implies(x != e, out_same_at(o0, o1, x))),
+            'other-clients-membership-kept': z3.ForAll([a, r, s], z3.Implies(z3.And(member(c.pre, a, r, s), z3.Not(mine(a, s))), member(c.post, a, r, s))),
+            'no-membership-for-existing-clients-gained': z3.ForAll([a, r, s], z3.Implies(z3.And(member(c.post, a, r, s), z3.Not(member(c.pre, a, r, s))),
+                                                                                      z3.Not(c.pre.get('g', 'issued').c['.'][s]))),
+            'other-clients-callbacks-kept': z3.ForAll([s, k], z3.Implies(z3.And(cb_present(c.pre, s, k), z3.Not(z3.Exists([a], mine(a, s)))),
+                                                                         z3.And(cb_present(c.post, s, k), cb_val(c.post, s, k) == cb_val(c.pre, s, k)))),
+            'other-transports-buffers-kept': binp_frame(c, c.pre, c.post, False),
+            'server-still-consistent': z3.And(*inv_m(c.post).values(), *binp_ok(c.post).values()),
+        }
+    # ---- C05: a frame is handed, once, to the handler its decoded type selects (whose own contract says the rest)
+    from pyvc.contract import delegated
+
+    def args_of(c):
+        ep = c.a.data
+        return dict(eio_sid=c.a.eio_sid, namespace=f_ns(c), id=f_id(c), data=f_data(c))
+    disc_args = lambda c: dict(eio_sid=c.a.eio_sid, namespace=f_ns(c), reason=R_CLIENT)
+    conn_args = lambda c: dict(eio_sid=c.a.eio_sid, namespace=f_ns(c), data=f_data(c))
+    PRE_CALLS = ('.decode', '._data_is_binary', '.add_attachment')     # packet methods called before the dispatch
+    fresh_frame = lambda c, t: z3.And(z3.Not(buffering(c)), ty(c) == T[t])
+
+    def plain(suffix, argf, kind):
+        def post(c):
+            d = delegated(c, suffix, argf(c), kind, allow_before=PRE_CALLS)
+            return d
+        return post
+    dispatch_cases = []
+    for tname, suffix, argf in (('EVENT', '._handle_event', args_of), ('ACK', '._handle_ack', args_of),
+                                ('CONNECT', '._handle_connect', conn_args), ('DISCONNECT', '._handle_disconnect', disc_args)):
+        g_ = (lambda t: lambda c: fresh_frame(c, t))(tname)
+        dispatch_cases.append(Case(tname, when=g_, post=plain(suffix, argf, 'return')))
+        dispatch_cases.append(Case(tname + '.handler-raises', when=g_, kind='raise', exc='Exception', post=plain(suffix, argf, 'raise'), group='dx:' + tname))
+        dispatch_cases.append(Case(tname + '.undecodable', when=g_, kind='raise', exc='Exception', post=rejected, group='dx:' + tname))
+    # ---- attachments of a binary packet being received
+    from .packet_summary import reconstructed
+
+    def buf(c, st):
+        return st.get(*BINP).child(('k', c.a.eio_sid))
+
+    def n_att(c):
+        return buf(c, c.pre).c['attachments/len']
+
+    def count(c):
+        return buf(c, c.pre).c['attachment_count/']
+
+    def entry_removed(c):
+        b0, b1 = c.pre.get(*BINP), c.post.get(*BINP)
+        return {'buffer-entry-removed': z3.Not(b1.c['dom'][c.a.eio_sid]), 'other-buffers-untouched': binp_frame(c, c.pre, c.post, False)}
+
+    def completed_args(c):
+        r = buf(c, c.pre)
+        n = n_att(c)
+        atts = PySeq([View(r.c['attachments/arr'], z3.IntVal(0), n), Fixed([S(c.a.data)])], 'list')
+        return dict(eio_sid=c.a.eio_sid, namespace=r.c['namespace/'], id=r.c['id/'],
+                    data=reconstructed(r.c['data/'], c.eng.to_v(c.ctx, atts)))
+
+    def completes(suffix, kind):
+        def post(c):
+            d = delegated(c, suffix, completed_args(c), kind, allow_before=PRE_CALLS, changed_before=[BINP])
+            d.update(entry_removed(c))
+            return d
+        return post
+    more = lambda c: z3.And(buffering(c), count(c) > n_att(c) + 1)
+    last = lambda c: z3.And(buffering(c), count(c) == n_att(c) + 1)
+    last_ev = lambda c: z3.And(last(c), buf(c, c.pre).c['packet_type/'] == T['BINARY_EVENT'])
+    last_ack = lambda c: z3.And(last(c), buf(c, c.pre).c['packet_type/'] != T['BINARY_EVENT'])
+
+    def appended(c):
+        r0, r1 = buf(c, c.pre), buf(c, c.post)
+        n = n_att(c)
+        p_ = z3.Int('ap_p')
+        return {'attachment-kept-in-arrival-order': z3.And(c.post.get(*BINP).c['dom'][c.a.eio_sid], r1.c['attachments/len'] == n + 1,
+                                                            r1.c['attachments/arr'][n] == c.a.data,
+                                                            z3.ForAll([p_], z3.Implies(z3.And(p_ >= 0, p_ < n), r1.c['attachments/arr'][p_] == r0.c['attachments/arr'][p_])),
+                                                            *[r1.c[f] == r0.c[f] for f in ('packet_type/', 'namespace/', 'id/', 'data/', 'attachment_count/')]),
+                'other-buffers-untouched': binp_frame(c, c.pre, c.post, False),
+                'nothing-invoked': sv_equiv(c.post.get(*DISP), c.pre.get(*DISP)), 'nothing-sent': sv_equiv(c.post.get(*OUT), c.pre.get(*OUT)),
+                'manager-untouched': z3.And(member_rel(c.pre, c.post), vals_kept(c.pre, c.post))}
+    dispatch_cases.append(Case('attachment.more-to-come', when=more, post=appended))
+    dispatch_cases.append(Case('attachment.completes-event', when=last_ev, post=completes('._handle_event', 'return')))
+    dispatch_cases.append(Case('attachment.completes-event.handler-raises', when=last_ev, kind='raise', exc='Exception', post=completes('._handle_event', 'raise')))
+    dispatch_cases.append(Case('attachment.completes-ack', when=last_ack, post=completes('._handle_ack', 'return')))
+    dispatch_cases.append(Case('attachment.completes-ack.callback-raises', when=last_ack, kind='raise', exc='Exception', post=completes('._handle_ack', 'raise')))
+    dispatch_cases.append(Case('attachment.unexpected', when=lambda c: z3.And(buffering(c), count(c) <= n_att(c)), kind='raise', exc='ValueError', post=rejected))
+    dispatch_cases.append(Case('binary-header', when=is_bin_hdr, post=header_stored))
+    dispatch_cases.append(Case('binary-header.undecodable', when=is_bin_hdr, kind='raise', exc='Exception', post=rejected))
+    dispatch_cases.append(Case('unexpected-type-or-undecodable', when=bad_type, kind='raise', exc='Exception', post=rejected))
+
+    return Contract(
+        target=target, schema=world, self_obj='server', params={'eio_sid': 'V', 'data': 'V'},
+        requires=req,
+        cases=[
+            Case('any-frame', post=ownership, group='own'),
+            Case('any-frame.raises', kind='raise', exc='Exception', post=ownership, group='ownx'),
+        ] + dispatch_cases,
+        modifies=[ROOMS, CBS, PEND, DISP, CALLS, OUT, ('g', 'raw'), ('g', 'issued'), BINP], props=['C12', 'C05'],
+        must_fail=lambda c: {'any-frame:claims-nothing-ever-sent': sv_equiv(c.post.get(*OUT), c.pre.get(*OUT))})
+
+
+def register3(reg):
+    for w, m_, c_ in ((worlds.SERVER, 'server', 'Server'), (worlds.ASYNC_SERVER, 'async_server', 'AsyncServer')):
+        reg.add(eio_message_contract(w, '%s.%s._handle_eio_message' % (m_, c_)))
+
+
+_register2 = register
+
+
+def register(reg):
+    _register2(reg)
+    register3(reg)
